@@ -56,8 +56,8 @@ func Read(fd int, p []byte) (int, error) {
 	switch f.kind {
 	case kStream:
 		want := p
-		if k.ShortReadLT > 0 && len(p) > 1 && len(f.sock.rcvq) > 1 && !k.etRegistered(f) && k.rng.Intn(100) < k.ShortReadLT {
-			want = p[:1+k.rng.Intn(min(len(p), len(f.sock.rcvq))-1)]
+		if k.ShortReadLT > 0 && len(p) > 1 && len(f.sock.rcvq) > 1 && !k.etRegistered(f) && k.Draw(fmt.Sprintf("shortread:%d", f.sock.ID), 100) < k.ShortReadLT {
+			want = p[:1+k.Draw(fmt.Sprintf("shortlen:%d", f.sock.ID), min(len(p), len(f.sock.rcvq))-1)]
 			k.Stats["short-read-LT"]++
 		}
 		n, en := f.sock.read(want)
